@@ -21,6 +21,9 @@ pub enum Kind {
     Unit(String, String, String),
     /// item 'qq' of a user-defined unit family that carries its own digits and flags
     UserUnit,
+    /// [NUMBER:x] printed by a calculator whose separators were reached through this sequence of
+    /// single setter calls ('d' + value = set_decimal_seperator, 't' + value = set_thousand_separator)
+    SetterOrder(Vec<String>),
 }
 
 #[derive(Clone, Debug, Serialize, Deserialize)]
@@ -246,6 +249,49 @@ impl Prop for C07 {
             ));
         }
         {
+            let sp = spec();
+            let mut all: Vec<String> = sp.currencies.keys().cloned().collect();
+            all.sort();
+            let n = all.len();
+            f.push(Family::new(
+                "money-all-currencies",
+                Mode::Full,
+                &format!("every configured currency ({} records, with or without a rate) x amounts [0, 1, 1234.56, -2469.5, 0.005, 999.995]: digit count, symbol and symbol placement (side, blank) of the currency's own record", n),
+                move |ch| {
+                    let code = ch.pick(&all).clone();
+                    let d = spec().currencies[&code].digits;
+                    let x = *ch.pick(&[0.0, 1.0, 1234.56, -2469.5, 0.005, 999.995]);
+                    Some(Case { kind: Kind::Money(code), x, digits: d, remove_zero_fract: false, rounding: true, dec: ",".into(), thou: ".".into() })
+                },
+            ));
+        }
+        f.push(Family::new(
+            "separator-setter-orders",
+            Mode::Full,
+            "every sequence of 1..=3 single setter calls over set_decimal_seperator in [',', '.', ';'] and set_thousand_separator in ['.', ',', '\''] on a fresh calculator, then [NUMBER:1234567.891] and [NUMBER:-0.5]: printed with the separators last set (whatever values they passed through), unless the two end up equal",
+            move |ch| {
+                let ops = ["d,", "d.", "d;", "t.", "t,", "t'"];
+                let n = 1 + ch.choose(3);
+                let mut seq = Vec::new();
+                for _ in 0..n {
+                    seq.push(ch.pick(&ops).to_string());
+                }
+                let x = *ch.pick(&[1234567.891, -0.5]);
+                let (mut dec, mut thou) = (",".to_string(), ".".to_string());
+                for o in seq.iter() {
+                    if o.starts_with('d') {
+                        dec = o[1..].to_string();
+                    } else {
+                        thou = o[1..].to_string();
+                    }
+                }
+                if dec == thou {
+                    return None; // identical separators: unspecified
+                }
+                Some(Case { kind: Kind::SetterOrder(seq), x, digits: 2, remove_zero_fract: true, rounding: true, dec, thou })
+            },
+        ));
+        {
             let seps = seps.clone();
             f.push(Family::new(
                 "unit",
@@ -281,6 +327,32 @@ impl Prop for C07 {
     }
 
     fn exec(&self, ctx: &mut Ctx, c: &Case) -> Verdict {
+        if let Kind::SetterOrder(seq) = &c.kind {
+            let mut calc = ctx.fresh(&Cfg::default());
+            for o in seq.iter() {
+                if o.starts_with('d') {
+                    calc.set_decimal_seperator(o[1..].to_string());
+                } else {
+                    calc.set_thousand_separator(o[1..].to_string());
+                }
+            }
+            let text = format!("[NUMBER:{}]", fmt_x(c.x));
+            let run = crate::obs::eval(&calc, "en", &text);
+            let mut v = Verdict { input: format!("{:?} then {}", seq, text), class: "accepted", compared: true, expected: format!("printed with decimal {:?} and thousands {:?}", c.dec, c.thou), observed: run.brief(), evals: 1, ..Default::default() };
+            match run.single() {
+                Some(Slot::Ok { out, .. }) => match accept(out, c.x, 2, true, true, &c.dec, &c.thou) {
+                    Ok(class) => v.class = class,
+                    Err(e) => v.violation = Some(e),
+                },
+                _ => {
+                    if let Run::Panic(p) = &run {
+                        v.site = Some(p.site.clone());
+                    }
+                    v.violation = Some("no printed value".into());
+                }
+            }
+            return v;
+        }
         let mut cfg = Cfg::seps(&c.dec, &c.thou);
         let text = match &c.kind {
             Kind::Number => {
@@ -303,6 +375,7 @@ impl Prop for C07 {
                 cfg.user_unit = Some((c.digits, c.remove_zero_fract, c.rounding));
                 format!("[NUMBER:{}] qq", fmt_x(c.x))
             }
+            Kind::SetterOrder(_) => unreachable!(),
         };
         let lc = LineCase::new(text.clone(), Expect::Unspecified, "format").with_cfg(cfg);
         let run = run_case(ctx, &lc);
@@ -336,6 +409,7 @@ impl Prop for C07 {
                 };
                 stripped.map(|s| s.to_string()).ok_or_else(|| format!("money not printed with symbol {:?} in the configured placement", cur.symbol))
             }
+            Kind::SetterOrder(_) => unreachable!(),
             Kind::UserUnit => out.strip_suffix(" qq").map(|s| s.to_string()).ok_or_else(|| "user-defined unit quantity not printed through the unit's format".to_string()),
             Kind::Unit(_, pre, post) => out.strip_prefix(pre.as_str()).and_then(|s| s.strip_suffix(post.as_str())).map(|s| s.to_string()).ok_or_else(|| "unit quantity not printed through the unit's format".to_string()),
         };
